@@ -1,1 +1,2 @@
 pub mod eval;
+pub mod unify;
